@@ -1,6 +1,88 @@
 /-
   C06 — nothing written in a module is lost or altered on the way into the schema.
+
+  The unbounded part proved here is the reading of statement arguments: every text, written in any
+  legal double- or single-quoted form and split into any number of `+`-joined pieces, with white space
+  and comments anywhere around the pieces, is read back as exactly that text.  Statement-level
+  fidelity (which accessor returns which argument) is carried by the correspondence.
 -/
+import YangVerif.Proofs.YangStr
 namespace YangVerif.C06
-theorem placeholder : True := trivial
+open YangVerif.YStr
+
+/-- **escapes**: every legal encoding of a text inside double quotes (each `"` and `\` escaped, line feed
+    and tab escaped or literal) is delimited correctly by the scanner and decodes to the text -/
+theorem dq_roundtrip (t e rest : Text) (h : Enc t e) :
+    (scanDq (e ++ 34 :: rest)).map (fun (b, r) => (unescape b, r)) = some (t, rest) := by
+  rw [scanDq_enc t e rest h]; simp [unescape_enc t e h]
+
+/-- single quotes: the text as it stands, backslashes and double quotes included -/
+theorem sq_roundtrip (t rest : Text) (h : 39 ∉ t) : scanSq (t ++ 39 :: rest) = some (t, rest) := scanSq_body t rest h
+
+/-- **white space and comments anywhere between tokens** are skipped, whatever their number and mix -/
+theorem separators_skipped (s : List SepItem) (rest : Text) (h : Stops rest) :
+    skipWS (renderSep s ++ rest).length (renderSep s ++ rest) = rest := skipWS_sep_len s rest h
+
+theorem piece_render_stops (p : Piece) (tail : Text) : Stops (p.render ++ tail) := by
+  cases p <;> simp [Piece.render, Stops, isSpace]
+
+/-- **any quoting, any `+` concatenation, any comment placement**: a statement argument written as one or
+    more quoted pieces joined by `+`, with arbitrary separators around every `+` and behind the last
+    piece, reads back as the concatenation of the pieces' texts, and the input continues right at the
+    statement's `;` or `{` -/
+theorem argument_roundtrip (ps : List (Piece × List SepItem × List SepItem)) (after : List SepItem) (rest : Text)
+    (hne : ps ≠ []) (hrest : Stops rest) (hplus : ∀ r, rest ≠ 43 :: r) (f : Nat) (hf : ps.length ≤ f) :
+    lexQuoted f (renderArg ps after rest) = some (argText ps, rest) := by
+  induction ps generalizing f with
+  | nil => exact absurd rfl hne
+  | cons x r ih =>
+    obtain ⟨p, s1, s2⟩ := x
+    obtain ⟨f1, rfl⟩ : ∃ f1, f = f1 + 1 := ⟨f - 1, by simp at hf; omega⟩
+    -- the first piece
+    have hpiece : ∀ tail : Text, lexPiece (p.render ++ tail) = some (p.text, tail) := by
+      intro tail
+      cases p with
+      | dq t e h =>
+        simp only [Piece.render, Piece.text, List.cons_append, List.append_assoc, List.singleton_append, lexPiece]
+        exact dq_roundtrip t e tail h
+      | sq t h =>
+        simp only [Piece.render, Piece.text, List.cons_append, List.append_assoc, List.singleton_append, lexPiece]
+        exact sq_roundtrip t tail h
+    cases r with
+    | nil =>
+      simp only [renderArg, argText, List.append_nil, List.append_assoc]
+      rw [lexQuoted_succ]
+      simp only [hpiece]
+      rw [separators_skipped after rest hrest]
+      match rest, hrest, hplus with
+      | c :: r', _, hp =>
+        have : c ≠ 43 := fun e => hp r' (by rw [e])
+        split
+        · rename_i heq; simp at heq; exact absurd heq.1 this
+        · rfl
+    | cons q r' =>
+      simp only [renderArg, List.append_assoc, List.cons_append]
+      rw [lexQuoted_succ]
+      simp only [hpiece]
+      have hs1 : Stops (43 :: (renderSep s2 ++ renderArg (q :: r') after rest)) := by simp [Stops, isSpace]
+      rw [separators_skipped s1 _ hs1]
+      simp only
+      have hq : Stops (renderArg (q :: r') after rest) := by
+        obtain ⟨qp, qs1, qs2⟩ := q
+        cases r' with
+        | nil => simp only [renderArg, List.append_assoc]; exact piece_render_stops qp _
+        | cons q2 r2 => simp only [renderArg, List.append_assoc]; exact piece_render_stops qp _
+      rw [separators_skipped s2 _ hq]
+      have := ih (by simp) f1 (by simp at hf ⊢; omega)
+      rw [this]
+      simp [argText]
+
+/-! #### non-vacuity -/
+example : Enc [113, 34, 92, 10] [113, 92, 34, 92, 92, 92, 110] :=
+  .cons (.plain 113 (by decide) (by decide)) (.cons .quote (.cons .backslash (.cons .newline .nil)))
+example : lexQuoted 5 ([34, 97, 92, 34, 34] ++ [32, 47, 42, 32, 99, 32, 42, 47] ++ [43, 10] ++ [39, 98, 92, 39] ++ [32, 59]) =
+    some ([97, 34, 98, 92], [59]) := by decide
+example : skipWS 9 [47, 47, 32, 120, 10, 32, 59] = [59] := by decide
+example : unescape [97, 92, 110, 92, 120, 92, 92] = [97, 10, 92, 120, 92] := by decide
+
 end YangVerif.C06
